@@ -63,6 +63,12 @@ Definition spec_kmer_exts (K : nat) (l : dna) (lset rset : list N) : list val :=
                         ofNs (if Nat.eqb (i + K) n then rset else [nth (i + K) l 0])]])
       (seq 0 (n + 1 - K)).
 
+Fixpoint take_every (fuel step : nat) (l : list N) : list N :=
+  match fuel with
+  | O => []
+  | S f => match l with [] => [] | x :: _ => x :: take_every f step (skipn step l) end
+  end.
+
 Definition seq_ops : list (string * handler) :=
   [ (* DnaString *)
     ("d.hist"%string, fun a => match a with [VL ops] => match omap v_dop ops with
@@ -133,6 +139,10 @@ Definition seq_ops : list (string * handler) :=
     ("s.count_diff"%string, fun a => match a with [VL l; VL m] => match vlistN l, vlistN m with
         | Some d, Some e => Some (VN (count_diff d e)) | _, _ => None end | _ => None end);
     ("s.id"%string, fun a => match a with [v] => Some v | _ => None end);
+    (* Iterator::skip(a).step_by(s) over a base iterator, on the list: every s-th element of the list without its first a
+       elements (s >= 1); nth(a) followed by the rest is the case s = 1 *)
+    ("s.seq.skip_step"%string, fun a => match a with [VL l; VN sk; VN st] => match vlistN l with
+        | Some d => Some (ofNs (take_every (length d) (N.to_nat st) (skipn (N.to_nat sk) d))) | None => None end | _ => None end);
     ("s.sl"%string, fun a => match a with [VL l; VL ops] => match vlistN l, omap v_sop ops with
         | Some d, Some o => let v := sview d o in
             Some (VL [ofNs v; ofNs (map base_char v); ofNs (text v);
